@@ -17,6 +17,9 @@ transforms:
     guardclause trailing `if c: BODY` of a function -> `if not c: return` BODY
     ifexp       `x = a if c else b` / `return a if c else b` -> if / else statements
     compr       `xs = [E for v in IT if C]` -> explicit loop with append
+    enwalrus    `x = E` + `if x ...` -> `if (x := E) ...`
+    swapcmp     `a < b` -> `b > a` on simple operands
+    anyloop     `if any(P for v in IT)` -> flag loop with break, then `if flag`
     matchtoif   `match S:` over value patterns -> `_m_mm = S; if _m_mm == V1: ... elif ...`
 """
 
@@ -417,7 +420,133 @@ class MatchToIf(ast.NodeTransformer):
         return [pre] + orelse
 
 
-TRANSFORMS = {"matchtoif": MatchToIf, "tmpreturn": TmpReturn, "returnelse": ReturnElse, "guardclause": GuardClause, "ifexp": IfExpToStmt, "compr": ComprToLoop, "identity": None, "rename": Rename, "invert": Invert, "nest": Nest, "dewalrus": DeWalrus, "demorgan": DeMorgan}
+class EnWalrus(ast.NodeTransformer):
+    """`x = E` directly followed by `if <test whose first evaluated leaf is x>`  ->  `if (x := E) ...` (inverse of dewalrus)"""
+
+    def _block(self, stmts):
+        out = []
+        i = 0
+        stmts = [self.visit(s) for s in stmts]
+        while i < len(stmts):
+            st = stmts[i]
+            nxt = stmts[i + 1] if i + 1 < len(stmts) else None
+            if isinstance(st, ast.Assign) and len(st.targets) == 1 and isinstance(st.targets[0], ast.Name) and isinstance(nxt, ast.If) and not isinstance(st.value, (ast.Constant, ast.Name)):
+                cur, parent, fld = nxt.test, None, None
+                while True:
+                    if isinstance(cur, ast.Compare):
+                        parent, fld, cur = cur, "left", cur.left
+                    elif isinstance(cur, ast.BoolOp):
+                        parent, fld, cur = cur, "values0", cur.values[0]
+                    elif isinstance(cur, ast.UnaryOp):
+                        parent, fld, cur = cur, "operand", cur.operand
+                    else:
+                        break
+                if isinstance(cur, ast.Name) and cur.id == st.targets[0].id and not any(isinstance(x, ast.Name) and x.id == cur.id for x in ast.walk(st.value)):
+                    w = ast.NamedExpr(target=ast.Name(id=cur.id, ctx=ast.Store()), value=st.value)
+                    if parent is None:
+                        nxt.test = w
+                    elif fld == "left":
+                        parent.left = w
+                    elif fld == "values0":
+                        parent.values[0] = w
+                    else:
+                        parent.operand = w
+                    out.append(nxt)
+                    i += 2
+                    continue
+            out.append(st)
+            i += 1
+        return out
+
+    def generic_visit(self, node):
+        if isinstance(node, ast.Lambda):
+            return node
+        for fld in ("body", "orelse", "finalbody"):
+            v = getattr(node, fld, None)
+            if isinstance(v, list) and v and isinstance(v[0], ast.stmt):
+                setattr(node, fld, self._block(v))
+        for h in getattr(node, "handlers", []) or []:
+            h.body = self._block(h.body)
+        for c in getattr(node, "cases", []) or []:
+            c.body = self._block(c.body)
+        return node
+
+    def visit_ClassDef(self, node):
+        node.body = [self.visit(s) if isinstance(s, (ast.FunctionDef, ast.AsyncFunctionDef, ast.ClassDef)) else s for s in node.body]
+        return node
+
+    def visit_Module(self, node):
+        node.body = [self.visit(s) if isinstance(s, (ast.FunctionDef, ast.AsyncFunctionDef, ast.ClassDef)) else s for s in node.body]
+        return node
+
+
+class SwapCmp(ast.NodeTransformer):
+    """`a < b` -> `b > a` (and <=, >, >=) when both operands are names / attribute chains / integer constants"""
+
+    def visit_Compare(self, node: ast.Compare):
+        self.generic_visit(node)
+        simple = lambda e: isinstance(e, ast.Name) or (isinstance(e, ast.Constant) and isinstance(e.value, int) and not isinstance(e.value, bool)) or (isinstance(e, ast.Attribute) and simple(e.value))
+        if len(node.ops) == 1 and isinstance(node.ops[0], (ast.Lt, ast.LtE, ast.Gt, ast.GtE)) and simple(node.left) and simple(node.comparators[0]):
+            flip = {ast.Lt: ast.Gt, ast.LtE: ast.GtE, ast.Gt: ast.Lt, ast.GtE: ast.LtE}[type(node.ops[0])]
+            return ast.copy_location(ast.Compare(left=node.comparators[0], ops=[flip()], comparators=[node.left]), node)
+        return node
+
+
+class AnyToLoop(ast.NodeTransformer):
+    """`if any(P for v in IT): ...` / `if not any(...)` / `if all(...)` (the whole test, one generator, plain name targets
+    not used elsewhere)  ->  a flag loop with break in front of the `if`, which then tests the flag"""
+
+    def visit_FunctionDef(self, node):
+        self.generic_visit(node)
+        if any(isinstance(n, (ast.Lambda, ast.FunctionDef, ast.AsyncFunctionDef, ast.ClassDef)) for n in ast.walk(node) if n is not node):
+            return node
+        counts: dict[str, int] = {}
+        for n in ast.walk(node):
+            if isinstance(n, ast.Name):
+                counts[n.id] = counts.get(n.id, 0) + 1
+        params = {a.arg for a in node.args.posonlyargs + node.args.args + node.args.kwonlyargs}
+        k = [0]
+
+        def block(stmts):
+            out = []
+            for st in stmts:
+                for fld in ("body", "orelse", "finalbody"):
+                    v = getattr(st, fld, None)
+                    if isinstance(v, list) and v and isinstance(v[0], ast.stmt):
+                        setattr(st, fld, block(v))
+                for h in getattr(st, "handlers", []) or []:
+                    h.body = block(h.body)
+                for c in getattr(st, "cases", []) or []:
+                    c.body = block(c.body)
+                if isinstance(st, ast.If):
+                    t, neg = st.test, False
+                    while isinstance(t, ast.UnaryOp) and isinstance(t.op, ast.Not):
+                        t, neg = t.operand, not neg
+                    if isinstance(t, ast.Call) and isinstance(t.func, ast.Name) and t.func.id in ("any", "all") and len(t.args) == 1 and isinstance(t.args[0], ast.GeneratorExp) and len(t.args[0].generators) == 1 and not t.args[0].generators[0].is_async:
+                        g = t.args[0].generators[0]
+                        tnames = [x.id for x in ast.walk(g.target) if isinstance(x, ast.Name)]
+                        inside = sum(1 for x in ast.walk(t) if isinstance(x, ast.Name) and x.id in tnames)
+                        if tnames and all(tn not in params for tn in tnames) and sum(counts.get(tn, 0) for tn in tnames) == inside and not any(isinstance(x, ast.NamedExpr) for x in ast.walk(t)):
+                            k[0] += 1
+                            flag = f"_q{k[0]}_mm"
+                            is_any = t.func.id == "any"
+                            hit = t.args[0].elt if is_any else _neg(t.args[0].elt)
+                            for c_ in reversed(g.ifs):
+                                hit = ast.BoolOp(op=ast.And(), values=[c_, hit])
+                            body = [ast.If(test=hit, body=[ast.Assign(targets=[ast.Name(id=flag, ctx=ast.Store())], value=ast.Constant(is_any)), ast.Break()], orelse=[])]
+                            out.append(ast.copy_location(ast.Assign(targets=[ast.Name(id=flag, ctx=ast.Store())], value=ast.Constant(not is_any)), st))
+                            out.append(ast.copy_location(ast.For(target=g.target, iter=g.iter, body=body, orelse=[], type_comment=None), st))
+                            st.test = _neg(ast.Name(id=flag, ctx=ast.Load())) if neg else ast.Name(id=flag, ctx=ast.Load())
+                out.append(st)
+            return out
+
+        node.body = block(node.body)
+        return node
+
+    visit_AsyncFunctionDef = visit_FunctionDef
+
+
+TRANSFORMS = {"enwalrus": EnWalrus, "swapcmp": SwapCmp, "anyloop": AnyToLoop, "matchtoif": MatchToIf, "tmpreturn": TmpReturn, "returnelse": ReturnElse, "guardclause": GuardClause, "ifexp": IfExpToStmt, "compr": ComprToLoop, "identity": None, "rename": Rename, "invert": Invert, "nest": Nest, "dewalrus": DeWalrus, "demorgan": DeMorgan}
 
 
 def main() -> int:
